@@ -13,7 +13,7 @@ from vlib import closed_corr, core, engine_corr
 from vlib.core import q, unq
 
 PROPERTY = "C03"
-LEAN_MODS = ["AtomicaProofs.Properties.C03Grid", "AtomicaProofs.Properties.C03Conv", "AtomicaProofs.Properties.C03Closed"]
+LEAN_MODS = ["AtomicaProofs.Properties.C03Grid", "AtomicaProofs.Properties.C03Conv", "AtomicaProofs.Properties.C03Closed", "AtomicaProofs.Properties.C03ClosedExt"]
 THEOREMS = [
     # conversion half: the engine computes exactly the documented rule (Spec.*)
     "Atomica.C03.convert_rate", "Atomica.C03.convert_duration", "Atomica.C03.convert_number", "Atomica.C03.convert_number_empty",
@@ -43,21 +43,48 @@ THEOREMS = [
     "Atomica.C03.simulateN_prefix",
     "Atomica.C03.simulateN_length",
     "Atomica.C03.simulateN_none_mono",
+    "Atomica.C03.evalPars_deriv",
+    "Atomica.C03.nextD_within",
+    # closed loop, extensions (C03ClosedExt): skip windows of parameter scenarios, derivative parameters
+    "Atomica.C03.closed_skip_uses_data",                  # inside its window a parameter = clip(interp(data, t) * scale), on every state
+    "Atomica.C03.closed_skip_uses_data_val",
+    "Atomica.C03.skipped_iff",                            # the window is closed on both sides: lo <= t <= hi
+    "Atomica.C03.closed_before_window_unchanged",         # C09: nothing used differs at the indices < m => same first m entries
+    "Atomica.C03.closed_stock_at_window_start",           # ... and the stocks of index m
+    "Atomica.C03.closed_derivative_value",                # every reader of index i sees value[i]
+    "Atomica.C03.closed_derivative_step",                 # value[i+1] = clip(value[i] + scale*f(values of index i)*dt), f on the final values of index i
+    "Atomica.C03.closed_derivative_step_val",
+    "Atomica.C03.closed_derivative_next_value",
+    "Atomica.C03.closed_derivative_run",                  # ... along every run, entry by entry
+    "Atomica.C03.closed_derivative_constant",             # f == 0 => constant
+    "Atomica.C03.closed_derivative_constant_sim",
+    "Atomica.C03.closed_derivative_linear",               # f == c, no limits => v0 + k*scale*c*dt
+    "Atomica.C03.evalParsD_fst",
 ]
 TRUSTED = [
     "float rounding of start + k*dt vs numpy.linspace (compared to 1e-9 absolute)",
     "closed loop: extraction of the specification from the built Model + ParameterSet (vlib/closed_corr.extract: dependency resolution as Parameter.set_fcn / Population.get_variable did it, AST serialisation of props/c19.py)",
     "closed loop: float tvec vs exact start + i*dt (C03 grid half), float product y_factor*meta_y_factor, tolerance 1e-6 as the exact rational 1/10^6",
     "closed loop: exact rationals are cut off when a stock needs more than closed_corr.BUDGET_BITS bits; the computed prefix is compared (simulateN_prefix)",
+    "closed loop: a skip-window bound that equals a point of the float time vector is sent as the exact grid point of that index, any other bound as the exact float; models where the float grid and the exact grid fall on different sides of a bound are counted ambiguous and not compared",
+    "closed loop: the scenario parset is the one ParameterScenario.get_parset returns (pre-interpolated series are an input of the model, their interpolation method is checked by C06/C09)",
 ]
 RULE = "engine: generated models, every step replayed through one exact model step (see C01); grid: cross product of start/end pairs x step sizes (incl. non-representable and non-dividing); non-trivial = span not an exact float multiple of dt or dt not a dyadic rational"
 RULE = RULE + "; " + (
 "closed loop: small generated models (<= 3 ordinary compartments per population, <= 2 populations, <= 11 time points, junctions / residual junctions / timed "
         "compartments / sources / sinks / transfers / aggregations, every unit type, functions of compartments, ratio characteristics, parameters and time, limits and scale factors); "
         "the real Model is processed and every stock row and link flow of every index is compared with csim (rtol 1e-8 + dust 1e-11 x people); non-trivial = a parameter of the run is "
-        "state-dependent, aggregated, clipped, scaled or time-varying, or people move between populations")
+        "state-dependent, aggregated, clipped, scaled or time-varying, or people move between populations; 40 % of the models carry derivative parameters (constant / zero / state-dependent / "
+        "self-referencing rates, rates that read a dynamic function parameter of the same index, limits that the Euler steps reach, accumulators read by link-driving parameters and "
+        "link-driving derivative parameters), 40 % parameter scenarios on function parameters (skip windows: linear / stepped, first year before the run / on / off the grid / first / last "
+        "point, one or several populations, windows closed again on / off the grid), 25 % a second population type with cross-type aggregations (SRC_POP_AVG / SUM with and without "
+        "interaction and weighting variable) driving a transition of the other type; direct oracles on a disagreement: skip-window value, derivative recurrence / initial value / straight "
+        "line, no effect before the first scenario year (re-run without the scenario), two-type model must build when its first type alone does")
 EXPECTED_BRANCHES = ["grid.divides", "grid.nondividing", "grid.dt_inexact", "rescale.active", "has.transfer", "has.source", "param.timevarying", "step.compared",
-                     "closed.compared_models", "fn.dynamic", "fn.precompute", "fn.of_compartment", "fn.of_characteristic", "fn.of_ratio_characteristic", "fn.of_parameter", "fn.limits", "data.limits", "par.scaled", "par.timescale", "par.several_links", "link.several_parameters", "data.timevarying", "units.fraction", "units.duration", "units.number", "units.proportion", "has.transfer", "has.timed", "has.junction", "has.resjunction", "has.source", "rescale.active"]
+                     "closed.compared_models", "fn.dynamic", "fn.precompute", "fn.of_compartment", "fn.of_characteristic", "fn.of_ratio_characteristic", "fn.of_parameter", "fn.limits", "data.limits", "par.scaled", "par.timescale", "par.several_links", "link.several_parameters", "data.timevarying", "units.fraction", "units.duration", "units.number", "units.proportion", "has.transfer", "has.timed", "has.junction", "has.resjunction", "has.source", "rescale.active",
+                     "deriv.any", "deriv.moves", "deriv.self_reference", "deriv.read_by_link_parameter", "deriv.drives_link", "deriv.limit_reached", "deriv.constant_rate",
+                     "scen.par.dynamic", "scen.par.precompute", "scen.first_year.on_grid", "scen.first_year.off_grid", "scen.interp.linear", "scen.interp.previous", "scen.several_pops",
+                     "scen.window_closed.on_grid", "scen.par.drives_link", "types.two", "types.cross_aggregation.interaction", "types.cross_aggregation.drives_link", "types.cross.SRC_POP_AVG", "types.cross.SRC_POP_SUM"]
 
 STARTS_ENDS = [(2000, 2035), (2000, 2001), (2000, 2000.5), (1990, 2030), (2010.5, 2020), (2000, 2040), (2015, 2018), (2000.25, 2010.75), (2000, 2100), (1999, 2000.1)]
 DTS = [1.0, 0.5, 0.25, 0.2, 0.1, 1 / 12, 1 / 52, 1 / 365, 0.3, 0.7, 0.05, 0.125, 1 / 3, 0.4, 0.15, 2.0, 7 / 365, 0.6, 1 / 24, 0.35, 0.01, 1 / 6, 0.9, 1.5, 0.45]
